@@ -79,6 +79,13 @@ def Honest (W : World H S F) (i : FileInput) (e : Entry H S F) : Prop :=
 def Inv (W : World H S F) (L : List FileInput) (bd : BuildDir H S F) : Prop :=
   ∀ slot e, bd.get slot = some e → ∃ i ∈ L, Honest W i e
 
+/-- no two hash inputs that occur in `L` collide (the satisfiable form of "std::hash has no collision": a function from all byte
+    strings into `size_t` cannot be injective, it can be collision-free on the finitely many inputs of a history) -/
+def HashInjOn (W : World H S F) (L : List FileInput) : Prop :=
+  ∀ a ∈ L, ∀ b ∈ L, W.hash (hashInput W.enc a) = W.hash (hashInput W.enc b) → hashInput W.enc a = hashInput W.enc b
+
+instance (W : World H S F) (L : List FileInput) : Decidable (HashInjOn W L) := by unfold HashInjOn; infer_instance
+
 theorem Finding.stored_stored (f : Finding) : f.stored.stored = f.stored := rfl
 
 theorem filterMap_report_stored (vis : Finding → Bool) (l : List Finding) (h : ∀ f ∈ l, vis f.stored = vis f) :
@@ -93,7 +100,7 @@ theorem filterMap_report_stored (vis : Finding → Bool) (l : List Finding) (h :
 section OneRun
 variable (W : World H S F) (L : List FileInput) (sr : SummRet) (vis : Finding → Bool) (ft : List FtLine)
 
-theorem runFile_spec (hinj : Function.Injective W.hash) (henc : KeyFaithfulOn W.enc L)
+theorem runFile_spec (hinj : HashInjOn W L) (henc : KeyFaithfulOn W.enc L)
     (bd : BuildDir H S F) (hbd : Inv W L bd) (i : FileInput) (hi : i ∈ L)
     (hmac : ∀ f ∈ W.analyze [] i.view, vis f.stored = vis f)
     (hsr : W.analyze sr i.view = W.analyze [] i.view ∧ W.summary sr i.view = W.summary [] i.view) :
@@ -132,7 +139,7 @@ theorem runFile_spec (hinj : Function.Injective W.hash) (henc : KeyFaithfulOn W.
     obtain ⟨j, hj, hej⟩ := hbd _ e hget.1
     have hkey : hashInput W.enc j = hashInput W.enc i := by
       have : W.hash (hashInput W.enc j) = W.hash (hashInput W.enc i) := hej.1.symm.trans hget.2
-      exact hinj this
+      exact hinj j hj i hi this
     have hview : j.view = i.view := henc j hj i hi hkey
     have hrun : runFile W sr vis ft bd i = (bd, e.findings.filterMap (report vis)) := by
       simp only [runFile, hr]
@@ -142,7 +149,7 @@ theorem runFile_spec (hinj : Function.Injective W.hash) (henc : KeyFaithfulOn W.
     rw [hej.2.1, hview]
     exact filterMap_report_stored vis _ hmac
 
-theorem runFiles_spec (hinj : Function.Injective W.hash) (henc : KeyFaithfulOn W.enc L) :
+theorem runFiles_spec (hinj : HashInjOn W L) (henc : KeyFaithfulOn W.enc L) :
     ∀ (files : List FileInput) (bd : BuildDir H S F), Inv W L bd → (∀ i ∈ files, i ∈ L) →
       (∀ i ∈ files, ∀ f ∈ W.analyze [] i.view, vis f.stored = vis f) → SummFree W sr files →
       (runFiles W sr vis ft bd files).2 = files.map (fun i => (W.analyze [] i.view).filterMap (report vis))
@@ -204,7 +211,7 @@ theorem filesTxt_source (paths : List Str) : (filesTxt paths).map (·.source) = 
 
 /-- one run over a build directory of honest entries -/
 theorem runWithCache_spec (W : World H S F) (L : List FileInput) (vis : Finding → Bool)
-    (hinj : Function.Injective W.hash) (henc : KeyFaithfulOn W.enc L)
+    (hinj : HashInjOn W L) (henc : KeyFaithfulOn W.enc L)
     (st : BdState H S F) (hbd : Inv W L st.1) (files : List FileInput) (hL : ∀ i ∈ files, i ∈ L)
     (hmac : MacroFree W vis files) (hsr : SummFree W (srOf W st.1 st.2) files) (hmap : MapOK W.lk (files.map (·.path))) :
     (runWithCache W vis st files).2 = runFresh W vis files ∧ Inv W L (runWithCache W vis st files).1.1 := by
@@ -222,14 +229,14 @@ theorem runWithCache_spec (W : World H S F) (L : List FileInput) (vis : Finding 
 
 /-- the per-file part alone needs no hypothesis on the file-to-cache-file mapping -/
 theorem runWithCache_perFile (W : World H S F) (L : List FileInput) (vis : Finding → Bool)
-    (hinj : Function.Injective W.hash) (henc : KeyFaithfulOn W.enc L)
+    (hinj : HashInjOn W L) (henc : KeyFaithfulOn W.enc L)
     (st : BdState H S F) (hbd : Inv W L st.1) (files : List FileInput) (hL : ∀ i ∈ files, i ∈ L)
     (hmac : MacroFree W vis files) (hsr : SummFree W (srOf W st.1 st.2) files) :
     (runWithCache W vis st files).2.perFile = (runFresh W vis files).perFile ∧ Inv W L (runWithCache W vis st files).1.1 := by
   obtain ⟨g1, g2, _, _⟩ := runFiles_spec W L (srOf W st.1 st.2) vis (filesTxt (files.map (·.path))) hinj henc files st.1 hbd hL hmac hsr
   exact ⟨by simp only [runWithCache, runFresh]; rw [g1], g2⟩
 
-theorem exec_spec (W : World H S F) (L : List FileInput) (hinj : Function.Injective W.hash) (henc : KeyFaithfulOn W.enc L) :
+theorem exec_spec (W : World H S F) (L : List FileInput) (hinj : HashInjOn W L) (henc : KeyFaithfulOn W.enc L) :
     ∀ (evs : List Event) (st : BdState H S F) (t : Tree), Inv W L st.1 →
       (∀ r ∈ runsOf t evs, (∀ i ∈ r.2, i ∈ L) ∧ MacroFree W r.1 r.2 ∧ MapOK W.lk (r.2.map (·.path))) →
       (∀ r ∈ cachedRuns W st t evs, SummFree W r.1 r.2) →
@@ -251,7 +258,7 @@ theorem exec_spec (W : World H S F) (L : List FileInput) (hinj : Function.Inject
       simp only [execCached, execFresh]
       rw [h1, ih _ t h2 hrest hs.2]
 
-theorem exec_perFile_spec (W : World H S F) (L : List FileInput) (hinj : Function.Injective W.hash) (henc : KeyFaithfulOn W.enc L) :
+theorem exec_perFile_spec (W : World H S F) (L : List FileInput) (hinj : HashInjOn W L) (henc : KeyFaithfulOn W.enc L) :
     ∀ (evs : List Event) (st : BdState H S F) (t : Tree), Inv W L st.1 →
       (∀ r ∈ runsOf t evs, (∀ i ∈ r.2, i ∈ L) ∧ MacroFree W r.1 r.2) →
       (∀ r ∈ cachedRuns W st t evs, SummFree W r.1 r.2) →
